@@ -197,8 +197,8 @@ inst!(b_twoway_rev_4_8, [props=C12 xprops=C05+C14 tier=thorough cfg=x86std t=540
 inst!(b_twoway_fwd_5_10, [props=C12 xprops=C05+C14 tier=thorough cfg=x86std t=7200 role=twoway-fwd uw=@TW:5:10;oracle:7], 4, blocks::twoway::<5, 10>(false, 5));
 inst!(b_twoway_fwd_alpha_6_12, [props=C12 xprops=C14 tier=thorough cfg=x86std t=7200 role=twoway-fwd-small-alphabet], 14, blocks::twoway_alpha::<6, 12>(false));
 inst!(b_twoway_rev_alpha_6_12, [props=C12 xprops=C14 tier=thorough cfg=x86std t=7200 role=twoway-rev-small-alphabet], 14, blocks::twoway_alpha::<6, 12>(true));
-inst!(b_rk_fwd_4_10, [props=C12+C05 xprops=C14 tier=quick cfg=x86std+generic t=1500 role=rabinkarp-fwd uw=is_equal_raw:3;Hash:6;rabinkarp::Finder::new:6;rabinkarp::FinderRev::new:6;find_raw:12;rfind_raw:12;oracle:6], 4, blocks::rabinkarp::<4, 10>(false, 0));
-inst!(b_rk_rev_4_10, [props=C12+C05 xprops=C14 tier=quick cfg=x86std+generic t=1500 role=rabinkarp-rev uw=is_equal_raw:3;Hash:6;rabinkarp::Finder::new:6;rabinkarp::FinderRev::new:6;find_raw:12;rfind_raw:12;oracle:6], 4, blocks::rabinkarp::<4, 10>(true, 0));
+inst!(b_rk_fwd_3_8, [props=C12+C05 xprops=C14 tier=quick cfg=x86std+generic t=1500 role=rabinkarp-fwd uw=is_equal_raw:3;Hash:6;rabinkarp::Finder::new:6;rabinkarp::FinderRev::new:6;find_raw:12;rfind_raw:12;oracle:6], 4, blocks::rabinkarp::<3, 8>(false, 0));
+inst!(b_rk_rev_3_8, [props=C12+C05 xprops=C14 tier=quick cfg=x86std+generic t=1500 role=rabinkarp-rev uw=is_equal_raw:3;Hash:6;rabinkarp::Finder::new:6;rabinkarp::FinderRev::new:6;find_raw:12;rfind_raw:12;oracle:6], 4, blocks::rabinkarp::<3, 8>(true, 0));
 inst!(b_rk_fwd_33, [props=C12+C14 xprops=C05 tier=quick cfg=x86std t=1500 role=rabinkarp-long], 35, blocks::rabinkarp_long::<33, 35>(false));
 inst!(b_rk_rev_34, [props=C12 xprops=C05+C14 tier=thorough cfg=x86std t=1500 role=rabinkarp-long], 36, blocks::rabinkarp_long::<34, 36>(true));
 #[cfg(not(vcfg_x86none))]
@@ -427,8 +427,8 @@ pub mod meta {
     }
 }
 
-inst!(m_oneshot_fwd, [props=C03+C14 xprops=C05 tier=quick cfg=x86std+generic t=1500 role=memmem-find-oneshot uw=is_equal_raw:3;Hash:6;rabinkarp::Finder::new:6;rabinkarp::FinderRev::new:6;find_raw:12;rfind_raw:12;oracle:6], 4, meta::oneshot::<4, 10>(false));
-inst!(m_oneshot_rev, [props=C04+C05+C14 tier=quick cfg=x86std+generic t=1500 role=memmem-rfind-oneshot uw=is_equal_raw:3;Hash:6;rabinkarp::Finder::new:6;rabinkarp::FinderRev::new:6;find_raw:12;rfind_raw:12;oracle:6], 4, meta::oneshot::<4, 10>(true));
+inst!(m_oneshot_fwd, [props=C03+C14 xprops=C05 tier=quick cfg=x86std+generic t=1500 role=memmem-find-oneshot uw=is_equal_raw:3;Hash:6;rabinkarp::Finder::new:6;rabinkarp::FinderRev::new:6;find_raw:12;rfind_raw:12;oracle:6], 4, meta::oneshot::<3, 8>(false));
+inst!(m_oneshot_rev, [props=C04+C05+C14 tier=quick cfg=x86std+generic t=1500 role=memmem-rfind-oneshot uw=is_equal_raw:3;Hash:6;rabinkarp::Finder::new:6;rabinkarp::FinderRev::new:6;find_raw:12;rfind_raw:12;oracle:6], 4, meta::oneshot::<3, 8>(true));
 inst!(m_finder_n0, [props=C03+C14 tier=quick cfg=x86std t=900 role=finder-empty uw=@RK;@TWNEW;@TWOFF;with_ranker:6;oracle:6], 3, meta::finder::<0, 20>(2, 0, 20));
 inst!(m_finder_rev_n0, [props=C04+C14 tier=quick cfg=x86std t=900 role=finderrev-empty uw=@RK;@TWNEW;@TWOFF;with_ranker:6;oracle:6], 3, meta::finder_rev::<0, 20>(0, 20));
 
@@ -441,7 +441,7 @@ inst!(m_finder_n3_sse2, [props=C03 xprops=C05+C14 tier=thorough cfg=x86std t=180
 inst!(m_finder_n4_sse2_36, [props=C03 xprops=C05+C14 tier=thorough cfg=x86std t=3600 role=finder-packed-sse2 uw=@RK;@TWNEW;@TWOFF;with_ranker:6;oracle:6;@PP], 3,
     meta::finder::<4, 36>(1, 16, 36));
 // mode 2 = AVX2: the AVX2 finder falls back to its SSE2 half below 32+index bytes
-inst!(m_finder_n2_avx2, [props=C03 xprops=C05+C14 tier=quick cfg=x86std t=1800 role=finder-packed-avx2 uw=@RK;@TWNEW;@TWOFF;with_ranker:6;oracle:6;@PP32], 3,
+inst!(m_finder_n2_avx2_36, [props=C03 xprops=C05+C14 tier=thorough cfg=x86std t=1800 role=finder-packed-avx2 uw=@RK;@TWNEW;@TWOFF;with_ranker:6;oracle:6;@PP32], 3,
     meta::finder::<2, 36>(2, 30, 36));
 inst!(m_finder_n3_avx2_66, [props=C03 xprops=C05+C14 tier=thorough cfg=x86std t=5400 role=finder-packed-avx2 uw=@RK;@TWNEW;@TWOFF;with_ranker:6;oracle:6;@PP32], 3,
     meta::finder::<3, 66>(2, 0, 66));
@@ -461,6 +461,11 @@ inst!(m_finder_rev_n3_tw, [props=C04 xprops=C05+C14 tier=thorough cfg=x86std t=5
     meta::finder_rev::<3, 18>(15, 18));
 // no SIMD available on x86 (mode 0): Two-Way + the portable prefilter
 inst!(m_finder_n2_nosimd_rk, [props=C03 xprops=C05+C14 tier=quick cfg=generic t=1800 role=finder-nosimd-rabinkarp uw=@RK;@TWNEW;@TWOFF;with_ranker:6;oracle:6;find_prefilter.0:2;@MEMCHR], 3,
-    meta::finder::<2, 12>(0, 0, 12));
+    meta::finder::<2, 9>(0, 0, 9));
 inst!(m_finder_n2_nosimd_tw, [props=C03 xprops=C05+C14 tier=thorough cfg=generic t=7200 role=finder-nosimd-twoway-prefilter uw=@RK;@TW:2:17;with_ranker:6;oracle:6;find_prefilter.0:19;@MEMCHR], 3,
     meta::finder::<2, 17>(0, 16, 17));
+
+inst!(b_rk_fwd_4_10, [props=C12 xprops=C05+C14 tier=thorough cfg=x86std t=5400 role=rabinkarp-fwd uw=is_equal_raw:3;Hash:6;rabinkarp::Finder::new:6;rabinkarp::FinderRev::new:6;find_raw:12;rfind_raw:12;oracle:6], 4, blocks::rabinkarp::<4, 10>(false, 0));
+inst!(b_rk_rev_4_10, [props=C12 xprops=C05+C14 tier=thorough cfg=x86std t=5400 role=rabinkarp-rev uw=is_equal_raw:3;Hash:6;rabinkarp::Finder::new:6;rabinkarp::FinderRev::new:6;find_raw:12;rfind_raw:12;oracle:6], 4, blocks::rabinkarp::<4, 10>(true, 0));
+inst!(m_oneshot_fwd_4_10, [props=C03 xprops=C05+C14 tier=thorough cfg=x86std t=5400 role=memmem-find-oneshot uw=is_equal_raw:3;Hash:6;rabinkarp::Finder::new:6;rabinkarp::FinderRev::new:6;find_raw:12;rfind_raw:12;oracle:6], 4, meta::oneshot::<4, 10>(false));
+inst!(m_oneshot_rev_4_10, [props=C04 xprops=C05+C14 tier=thorough cfg=x86std t=5400 role=memmem-rfind-oneshot uw=is_equal_raw:3;Hash:6;rabinkarp::Finder::new:6;rabinkarp::FinderRev::new:6;find_raw:12;rfind_raw:12;oracle:6], 4, meta::oneshot::<4, 10>(true));
